@@ -12,13 +12,13 @@ RULE = ('(algorithm, n, matrix type {real symmetric, complex Hermitian, diagonal
         'non-normal}, spectrum {separated, degenerate}, k = number of distinct eigenvalues reachable from the start vector '
         '= true Krylov dimension, real/complex start vector) x every 1<=m<=n inside the case; relations are checked on the '
         'leading min(m\', k) vectors only; distinct = distinct descriptor; non-trivial for n>=2')
-BOUNDS = {'quick': 'n<=12, every m<=n, every k, 1e-3<=||A||<=8', 'thorough': 'n<=12, every m<=n, every k, 6 repetitions'}
+BOUNDS = {'quick': 'n<=12, every m<=n, every k, 1e-3<=||A||<=8', 'thorough': 'n<=12, every m<=n, every k, 1e-3<=||A||<=8, 30 repetitions'}
 EXHAUSTIVE = {'quick': False, 'thorough': False}
 
 
 def cases(tier, seed):
     rng = np.random.default_rng(seed)
-    reps = 1 if tier == 'quick' else 6
+    reps = 2 if tier == 'quick' else 30
     for algo in ('lanczos', 'arnoldi'):
         for mt in (h.MATTYPES_HERM if algo == 'lanczos' else h.MATTYPES_ALL):
             for n in range(1, 13):
@@ -57,6 +57,8 @@ def run_case(c):
                 warnings.simplefilter('ignore')
                 ret = (krylov.lanczos_iteration if c['kind'] == 'lanczos' else krylov.arnoldi_iteration)(Afunc, v, m)
         except Exception as e:
+            if type(e).__name__ == 'CaseTimeout':      # the runner's wall-clock alarm must reach the runner
+                raise
             fail('returns', f'{tag}: raised {type(e).__name__}: {e}')
             continue
         if not np.array_equal(v, v0):
